@@ -143,6 +143,11 @@ fn expand_args(line: &str, args: &[String]) -> String {
     parsers::parser_line::tokens_to_line(&tokens)
 }
 
+#[cfg(cicada_verif)]
+pub fn verif_expand_args(line: &str, args: &[String]) -> String {
+    expand_args(line, args)
+}
+
 fn expand_line_to_toknes(line: &str,
                          args: &[String],
                          sh: &mut shell::Shell) -> types::Tokens {
@@ -169,6 +174,8 @@ fn expand_args_for_single_token(token: &str, args: &[String]) -> String {
     let mut _output = String::new();
     let mut _tail = String::new();
     loop {
+        #[cfg(cicada_verif)]
+        crate::verif::tick("expand_args");
         if !re.is_match(&_token) {
             if !_token.is_empty() {
                 result.push_str(&_token);
